@@ -99,7 +99,7 @@ def property_theorems(pid):
     path = os.path.join(LEAN, 'BqlVerif', 'Properties', pid + '.lean')
     src = strip_comments(open(path, encoding='utf-8').read())
     ns = re.findall(r'^namespace\s+(\S+)', src, re.M)
-    names = re.findall(r'^theorem\s+([A-Za-z0-9_.\']+)', src, re.M)
+    names = re.findall(r'^theorem\s+([^\s(:{\[]+)', src, re.M)
     prefix = (ns[0] + '.') if ns else ''
     return [prefix + n for n in names]
 
